@@ -361,6 +361,9 @@ def build_cases(tier):
             "unknown": {"metadata_type": "inject_code", "name": "n3", "bogus_field": ["x"]},
             "empty": {"metadata_type": "inject_code"},
             "nameonly": block_md("n4", {}),
+            "A_nameonly": block_md("n1", {}),                       # same name as A, no content: not identical to A
+            "A_allempty": block_md("n1", {f1: [], f2: []}),         # same name as A, every field empty: not identical to A
+            "unknown_empty": {"metadata_type": "inject_code", "name": "n5", "bogus_field": []},
         }
     # three blocks with an identical repeat around (or next to) a different block: the repeated block keeps its FIRST place
     for k in range(len(FIELDS)):
